@@ -19,7 +19,7 @@ var bUsers = []string{"u1", "u2", "u3"}
 func driveMeta() M {
 	return M{
 		"l1": M{"bkeys": []any{"1", "2"}, "accts": []any{"gov", "p1", "p2", "c1", "u1", "u2", "u3", "x", "esc1", "esc2", "pool"}, "denoms": []any{"d1", "d2", "d3"},
-			"funded": []any{"u1", "u2", "u3"}, "amt0": int64(400), "chans": []any{"ch1"}, "devs": []any{}, "maxB": int64(1), "feeDenom": "d1"},
+			"funded": []any{"u1", "u2", "u3"}, "amt0": int64(400), "chans": []any{"ch1"}, "devs": []any{}, "maxB": int64(2), "feeDenom": "d1"},
 		"l2": M{"accts": []any{"e1", "e2", "adm", "u1", "u2", "u3", "x", "opchild", "feecollector"}, "denoms": []any{"l2/1/d1", "l2/1/d2", "l2/1/d3"}, "funded": M{},
 			"params": M{"admin": "adm", "execs": []any{"e1", "e2"}, "maxVals": int64(3), "histEntries": int64(1), "hookGas": "ample", "fw": []any{}}, "devs": []any{}},
 	}
@@ -65,12 +65,63 @@ func Drive(out io.Writer, seed int64, runs, length int) (map[string]int, error) 
 			"oracle": false, "meta": M{"cls": "none", "chs": []any{}}, "bsub": "s1", "bchain": "INITIA"}}}); err != nil {
 			return nil, err
 		}
-		for i := 1; i < length; i++ {
+		// a second bridge on the same L1 (its L2 is not part of the run): deposits, outputs and claims on it are traffic that must
+		// not disturb bridge 1, in particular across a genesis round trip of the L1
+		if err := exec1(M{"chain": "L1", "e": M{"type": "CreateBridge", "signer": "x", "cfg": M{"proposer": "p2", "challenger": "c1", "period": int64(2), "interval": int64(2), "startH": int64(1),
+			"oracle": false, "meta": M{"cls": "none", "chs": []any{}}, "bsub": "s1", "bchain": "INITIA"}}}); err != nil {
+			return nil, err
+		}
+		tree2 := func(n int) M {
+			leaves := make([]any, n)
+			for i := 0; i < n; i++ {
+				leaves[i] = M{"b": int64(2), "seq": int64(i + 1), "from": "u1", "to": pick(r, []string{"u2"}), "denom": "d1", "amt": int64(1)}
+			}
+			return M{"id": fmt.Sprintf("X%d-%d", run, n), "leaves": leaves}
+		}
+		trees2 := map[int64]int{} // output index of bridge 2 -> number of leaves
+		for i := 2; i < length; i++ {
 			st1 := p.L1.Project()
 			nextOut := absx.Int(absx.Map(st1["nextOut"])["1"])
 			proposer := absx.Str(absx.Map(absx.Map(st1["cfg"])["1"])["proposer"])
 			var e M
-			switch w := r.Intn(100); {
+			switch w := r.Intn(112); {
+			case w >= 109: // genesis round trip of either chain
+				e = M{"chain": pick(r, []string{"L1", "L1", "L2"}), "e": M{"type": "ExportImport"}}
+			case w >= 100: // traffic on the second bridge
+				next2 := absx.Int(absx.Map(st1["nextOut"])["2"])
+				switch r.Intn(3) {
+				case 0:
+					e = M{"chain": "L1", "e": M{"type": "InitiateTokenDeposit", "signer": pick(r, bUsers), "b": int64(2), "to": "u1", "denom": "d1", "amt": int64(1 + r.Intn(5)), "data": "p0"}}
+				case 1:
+					n := 1 + r.Intn(4)
+					t := tree2(n)
+					trees2[next2] = n
+					e = M{"chain": "L1", "e": M{"type": "ProposeOutput", "signer": "p2", "b": int64(2), "idx": next2, "l2bn": next2,
+						"root": M{"v": int64(0), "t": t["id"], "h": "h1"}, "tree": t, "bad": "none"}}
+				default:
+					if len(trees2) == 0 {
+						continue
+					}
+					var out int64
+					for k := range trees2 {
+						if k > out {
+							out = k
+						}
+					}
+					out = 1 + int64(r.Intn(int(out)))
+					n, ok := trees2[out]
+					if !ok {
+						continue
+					}
+					t := tree2(n)
+					i := 1 + r.Intn(n)
+					ce := M{"type": "FinalizeTokenWithdrawal", "signer": "x", "b": int64(2), "out": out,
+						"w": M{"seq": int64(i), "from": "u1", "to": "u2", "denom": "d1", "amt": int64(1)}, "v": int64(0), "tree": t, "pos": int64(i), "h": "h1", "mut": "none", "bad": "none"}
+					cb := p.L1.BuildClaim(ce)
+					ce["root"] = cb.RootName
+					ce["proofOK"] = cb.ProofOK
+					e = M{"chain": "L1", "e": ce}
+				}
 			case w < 22:
 				e = M{"chain": "L1", "e": M{"type": "InitiateTokenDeposit", "signer": pick(r, bUsers), "b": int64(1), "to": pick(r, []string{"u1", "u2", "u3", "u1", "u2", l1.BadNotBech32, "opchild"}),
 					"denom": pick(r, []string{"d1", "d1", "d2", "d3"}), "amt": int64(r.Intn(40)), "data": pick(r, []string{"p0", "p0", "p0", "hw", "hwf"})}}
